@@ -1,4 +1,141 @@
-From ZV Require Import Base.Bytes DBus.Spec.
-Theorem C02_placeholder : padn 5 4 = 3%N.
-Proof. reflexivity. Qed.
-Print Assumptions C02_placeholder.
+(* Properties/C02.v — encoding then decoding returns the original value (D-Bus format).
+   [marshal] (DBus/Spec.v) is the specification's wire format, [de_any]/[de_value_top]/[de_struct_top]
+   (DBus/De.v) the model of zvariant::dbus::Deserializer with the dynamic-Value visitors, [ser_top] (DBus/Ser.v)
+   the model of zvariant::dbus::Serializer.  Statements only; proofs in DBus/DeComplete.v.
+
+   NOT COVERED HERE: the GVariant format.  These theorems speak about the D-Bus wire format only; the GVariant
+   encoder/decoder is handled by a separate model under C05 and has no round-trip theorem in this file.
+
+   Two side conditions appear beyond "well-formed and within the nesting limits", both forced by the format's
+   32-bit fields: the encoding is shorter than 2^32 bytes (array length prefixes; [wf] does not bound sizes) and the
+   descriptor table has at most 2^32 entries (a UNIX_FD is a u32 index; [wf (VFd h)] does not bound h). *)
+From ZV Require Import Base.Bytes Base.Res Base.Sig DBus.Val DBus.Spec DBus.Ser DBus.SerProofs DBus.De
+  DBus.DeCompleteFacts DBus.DeComplete.
+Local Open Scope N_scope.
+
+(* Completeness of the decoder on valid encodings, in the middle of any buffer: for every well-formed value v,
+   either byte order, any buffer that holds the marshalling of v (at the absolute position of the cursor, with
+   descriptor numbering fm/k) at the cursor — whatever precedes and follows it —, any depth counters that leave
+   room for v, and enough fuel for the nesting of v: the decoder returns exactly v and moves only the cursor,
+   by exactly the marshalled length. *)
+Theorem C02_decode_marshal : forall (v : dval) (fuel : nat) (st : dstate) (fm : fdmode) (k : N),
+  wf v = true -> t_sig st = vsig v -> fits (t_dep st) v ->
+  len (marshal (t_e st) fm v (tabs st) k) < 2 ^ 32 ->
+  N.of_nat (length (t_fds st)) <= 2 ^ 32 ->
+  (exists pre rest, t_bytes st = pre ++ marshal (t_e st) fm v (tabs st) k ++ rest /\ len pre = t_pos st) ->
+  (match fm with
+   | ByHandle => Forall (fun h => nthN (t_fds st) h = Some h) (fds_of v)
+   | ByOccurrence => forall i h, nth_error (fds_of v) i = Some h -> nthN (t_fds st) (k + N.of_nat i) = Some h
+   end) ->
+  (vdepth v <= fuel)%nat ->
+  de_any fuel st = Ok (v, tset_pos st (t_pos st + len (marshal (t_e st) fm v (tabs st) k))).
+Proof. exact de_complete. Qed.
+Print Assumptions C02_decode_marshal.
+
+(* the fuel of the entry points suffices for every value within the specification's nesting limits *)
+Theorem C02_fuel_sufficient : forall v : dval, within_limits v = true -> (vdepth v <= de_fuel)%nat.
+Proof. exact within_limits_fuel. Qed.
+Print Assumptions C02_fuel_sufficient.
+
+(* Data::deserialize::<Value>(): the marshalling of VARIANT(v) followed by arbitrary bytes decodes to v,
+   consumed = marshalled length *)
+Theorem C02_decode_value : forall (c : cfg) (e : endian) (fm : fdmode) (pos : N) (v : dval) (rest : bytes) (fds : list N),
+  wf (VVariant v) = true -> within_limits (VVariant v) = true ->
+  len (marshal e fm (VVariant v) pos 0) < 2 ^ 32 -> N.of_nat (length fds) <= 2 ^ 32 ->
+  (match fm with
+   | ByHandle => Forall (fun h => nthN fds h = Some h) (fds_of (VVariant v))
+   | ByOccurrence => forall i h, nth_error (fds_of (VVariant v)) i = Some h -> nthN fds (0 + N.of_nat i) = Some h
+   end) ->
+  de_value_top c e pos (marshal e fm (VVariant v) pos 0 ++ rest) fds = Ok (v, len (marshal e fm (VVariant v) pos 0)).
+Proof. exact de_value_top_complete. Qed.
+Print Assumptions C02_decode_value.
+
+(* Data::deserialize_for_dynamic_signature::<Structure>(): a message body *)
+Theorem C02_decode_body : forall (c : cfg) (e : endian) (fm : fdmode) (pos : N) (l : list dval) (rest : bytes) (fds : list N),
+  wf (VStruct l) = true -> within_limits (VStruct l) = true ->
+  len (marshal e fm (VStruct l) pos 0) < 2 ^ 32 -> N.of_nat (length fds) <= 2 ^ 32 ->
+  (match fm with
+   | ByHandle => Forall (fun h => nthN fds h = Some h) (fds_of (VStruct l))
+   | ByOccurrence => forall i h, nth_error (fds_of (VStruct l)) i = Some h -> nthN fds (0 + N.of_nat i) = Some h
+   end) ->
+  de_struct_top c e pos (vsig (VStruct l)) (marshal e fm (VStruct l) pos 0 ++ rest) fds
+  = Ok (VStruct l, len (marshal e fm (VStruct l) pos 0)).
+Proof. exact de_struct_top_complete. Qed.
+Print Assumptions C02_decode_body.
+
+(* ... and a body whose signature is one non-struct type (the decoder wraps it in a one-field struct) *)
+Theorem C02_decode_body_single : forall (c : cfg) (e : endian) (fm : fdmode) (pos : N) (v : dval) (rest : bytes) (fds : list N),
+  (match vsig v with SStruct _ => False | _ => True end) ->
+  wf (VStruct [v]) = true -> within_limits (VStruct [v]) = true ->
+  len (marshal e fm (VStruct [v]) pos 0) < 2 ^ 32 -> N.of_nat (length fds) <= 2 ^ 32 ->
+  (match fm with
+   | ByHandle => Forall (fun h => nthN fds h = Some h) (fds_of (VStruct [v]))
+   | ByOccurrence => forall i h, nth_error (fds_of (VStruct [v])) i = Some h -> nthN fds (0 + N.of_nat i) = Some h
+   end) ->
+  de_struct_top c e pos (vsig v) (marshal e fm (VStruct [v]) pos 0 ++ rest) fds
+  = Ok (VStruct [v], len (marshal e fm (VStruct [v]) pos 0)).
+Proof. exact de_struct_top_complete1. Qed.
+Print Assumptions C02_decode_body_single.
+
+(* Round trip through the code's own encoder (composition with C01), variant form: for every value the encoder
+   accepts (well-formed, signature values in the encoder's form, within the limits, sizes fitting 32 bits), any
+   configuration on either side, either byte order, any offset, any trailing bytes: the encoder produces bytes and
+   descriptors from which the decoder — at the same byte order and offset — returns the original value and reports
+   the encoded length as consumed. *)
+Theorem C02_roundtrip_value : forall (c c' : cfg) (e : endian) (pos : N) (v : dval) (rest : bytes),
+  wf (VVariant v) = true -> enc_form (VVariant v) = true -> within_limits (VVariant v) = true ->
+  len (marshal_top e pos (VVariant v)) < 2 ^ 32 -> nfds (VVariant v) < 2 ^ 32 ->
+  exists b fds, ser_top c e pos SVariant (sval_of (VVariant v)) = Ok (b, fds) /\
+                de_value_top c' e pos (b ++ rest) fds = Ok (v, len b).
+Proof. intros c c' e pos v rest H1 H2 H3 H4 H5. apply roundtrip_value. repeat split; assumption. Qed.
+Print Assumptions C02_roundtrip_value.
+
+(* body form: top-level struct, decoded with deserialize_for_dynamic_signature *)
+Theorem C02_roundtrip_body : forall (c c' : cfg) (e : endian) (pos : N) (l : list dval) (rest : bytes),
+  wf (VStruct l) = true -> enc_form (VStruct l) = true -> within_limits (VStruct l) = true ->
+  len (marshal_top e pos (VStruct l)) < 2 ^ 32 -> nfds (VStruct l) < 2 ^ 32 ->
+  exists b fds, ser_top c e pos (vsig (VStruct l)) (sval_of (VStruct l)) = Ok (b, fds) /\
+                de_struct_top c' e pos (vsig (VStruct l)) (b ++ rest) fds = Ok (VStruct l, len b).
+Proof. intros c c' e pos l rest H1 H2 H3 H4 H5. apply roundtrip_body. repeat split; assumption. Qed.
+Print Assumptions C02_roundtrip_body.
+
+(* the same, phrased on whatever the two models return, up to the canonical form of dictionaries (zvariant's
+   Value::Dict is a BTreeMap; the decoder model returns entries in wire order, which here is the order of v) *)
+Theorem C02_roundtrip_canon : forall (c c' : cfg) (e : endian) (pos : N) (v : dval) (rest : bytes),
+  wf (VVariant v) = true -> enc_form (VVariant v) = true -> within_limits (VVariant v) = true ->
+  len (marshal_top e pos (VVariant v)) < 2 ^ 32 -> nfds (VVariant v) < 2 ^ 32 ->
+  exists b fds w n, ser_top c e pos SVariant (sval_of (VVariant v)) = Ok (b, fds) /\
+                    de_value_top c' e pos (b ++ rest) fds = Ok (w, n) /\ canon w = canon v /\ n = len b.
+Proof.
+  intros c c' e pos v rest H1 H2 H3 H4 H5.
+  destruct (roundtrip_value c c' e pos v rest) as (b & fds & Hs & Hd); [repeat split; assumption|].
+  exists b, fds, v, (len b). repeat split; assumption.
+Qed.
+Print Assumptions C02_roundtrip_canon.
+
+(* the realignment fact behind the array loop: a value starts with the padding to its own alignment, and what
+   follows does not depend on where that padding began *)
+Theorem C02_marshal_realign : forall (e : endian) (fm : fdmode) (v : dval) (pos k : N),
+  marshal e fm v pos k
+  = pad pos (align_dbus (vsig v)) ++ marshal e fm v (pos + padn pos (align_dbus (vsig v))) k.
+Proof. exact marshal_realign. Qed.
+Print Assumptions C02_marshal_realign.
+
+(* non-vacuity: a dict of variants (one holding an array, one a descriptor) inside a struct with a signature and
+   an object path, at offset 5, big endian — the hypotheses hold, and the decoder model computes the value back *)
+Example C02_example_hypotheses :
+  wf (VVariant ex_value) = true /\ enc_form (VVariant ex_value) = true /\ within_limits (VVariant ex_value) = true /\
+  len (marshal_top BE 5 (VVariant ex_value)) < 2 ^ 32 /\ nfds (VVariant ex_value) < 2 ^ 32 /\
+  wf ex_value = true /\ enc_form ex_value = true /\ within_limits ex_value = true /\
+  len (marshal_top BE 5 ex_value) < 2 ^ 32 /\ nfds ex_value < 2 ^ 32.
+Proof. repeat split; vm_compute; reflexivity. Qed.
+Example C02_example_value :
+  de_value_top {| c_gv := false; c_oaa := false |} BE 5
+    (marshal_top BE 5 (VVariant ex_value) ++ [x01; x02; x03]) (fds_of ex_value)
+  = Ok (ex_value, len (marshal_top BE 5 (VVariant ex_value))).
+Proof. exact ex_variant_decodes. Qed.
+Example C02_example_body :
+  de_struct_top {| c_gv := false; c_oaa := false |} BE 5 (vsig ex_value)
+    (marshal_top BE 5 ex_value ++ [x01; x02; x03]) (fds_of ex_value)
+  = Ok (ex_value, len (marshal_top BE 5 ex_value)).
+Proof. exact ex_body_decodes. Qed.
